@@ -150,6 +150,75 @@ def nsga2_step(args):
     return common.merge_stats(body, st)
 
 
+def nsga2_run(args):
+    """Whole NSGAII.run() for G generations with a symbolic (uninterpreted) objective: the prologue
+    (generator, first evaluation, first sort) and G-1 real loop iterations.  No AST surgery: this
+    configuration also works when run() is refactored.  self.generate is replaced by its contract."""
+    N, m, G, faults = args['N'], args['m'], args['G'], args.get('faults', 0)
+    import artap.algorithm_NSGAII as NS
+    import artap.operators as O
+    st = common.install_comparator_summaries([m + 1])
+    prob = ec.make_problem(1, tuple(['minimize', 'maximize'][:m]), 0, bounds=[(0.0, 1000.0)])
+    box = {}
+    if faults:
+        import artap.job as JOB
+
+        class _Reroll(object):
+            n = 0
+
+            @classmethod
+            def gen_vector(cls, parameters):
+                cls.n += 1
+                return [700.0 + cls.n]
+        stubs.install((JOB, 'VectorAndNumbers', _Reroll))
+        box['reroll'] = _Reroll
+
+    class Gen(object):
+        def generate(self):
+            return [[float(i)] for i in range(N)]
+
+    def body(ctx):
+        ops.configure(round_grid=False, round_lemmas=False)
+        ctx.hash_hook = lambda x: 0
+        ec.reset_problem(prob, ctx, faults=bool(faults), max_faults=faults)
+        prob.h.fault_kinds = 3
+        if faults:
+            box['reroll'].n = 0
+        alg = NS.NSGAII(prob)
+        alg.options['max_population_size'] = N
+        alg.options['max_population_number'] = G
+        alg.generator = Gen()
+        box['offspring'] = []
+
+        def contract_generate(parents, archive=None):
+            k = len(box['offspring'])
+            out = [NS.IndividualNSGAII([100.0 * (k + 1) + j]) for j in range(N)]
+            box['offspring'].append(list(out))
+            return out
+        alg.generate = contract_generate
+        alg.run()
+        ok = prob.h.ok_calls()
+        pops = prob.populations()
+        ctx.output('tags', sorted(pops))
+        ctx.check('budget-N*G-successful-evaluations', len(ok) != N * G)
+        ctx.check('generations-1..G', sorted(pops) != list(range(1, G + 1)))
+        ctx.check('N-designs-per-generation', any(len(v) != N for v in pops.values()))
+        if sorted(pops) != list(range(1, G + 1)) or any(len(v) != N for v in pops.values()):
+            return
+        for g in range(2, G + 1):
+            cur, prev = pops[g], pops[g - 1]
+            ctx.check('no-design-twice-in-a-generation', any(bool(a == b) for i, a in enumerate(cur) for b in cur[i + 1:]))
+            cands = prev + (box['offspring'][g - 2] if len(box['offspring']) >= g - 1 else [])
+            dropped = [c for c in cands if not any(bool(c == s_) for s_ in cur)]
+            ctx.check('no-survivor-dominated-by-a-dropped-candidate',
+                      Or(*[dominates(c.costs_signed, s_.costs_signed) for s_ in cur for c in dropped
+                           if len(c.costs_signed) == m + 1 and len(s_.costs_signed) == m + 1]))
+            if m == 1:
+                ctx.check('best-cost-never-gets-worse',
+                          ops.smin([s_.costs_signed[0] for s_ in cur]) > ops.smin([p_.costs_signed[0] for p_ in prev]))
+    return common.merge_stats(body, st)
+
+
 # ---------------------------------------------------------------------------- part 2
 UNWIND = 3
 
@@ -356,6 +425,9 @@ def configs(tier):
         step(2, 2, repeats=((0, 1),), split=64)
         step(2, 1, ncon=1, split=32)
         step(3, 1, split=96)
+    for N, m, G, F in ((2, 1, 2, 0), (2, 1, 3, 0), (2, 1, 2, 1)) if Q else ((2, 1, 2, 0), (2, 1, 3, 0), (2, 1, 2, 1), (2, 2, 2, 0), (3, 1, 2, 0)):
+        out.append({'name': 'run-symbolic-N%d-m%d-G%d%s' % (N, m, G, '-faults%d' % F if F else ''), 'task': 'nsga2_run',
+                    'args': {'N': N, 'm': m, 'G': G, 'faults': F}, 'weight': 400 * G * (10 if m > 1 or N > 2 else 1), 'split': 64, 'engine': ve})
     for N in (2, 3):
         for arch in (False, True):
             out.append({'name': 'generate-N%d%s' % (N, '-archive' if arch else ''), 'task': 'generate', 'args': {'N': N, 'archive': arch},
